@@ -128,6 +128,19 @@ SUGAR = [
 REJECT = ["1 +", "(1", "[1", "{a", "1 2", ". .", "if 1 then 2", "if 1 then 2 else 3", "reduce . as $x (0)", "foreach . as $x (0)", "def f: 1", "def f(): 1; f", "{(1)}", "{a:}", ".[", ".a.", "1 as x | 2",
           "1 as $x", "try", "label | 1", "label x | 1", "break", "| 1", "1 |", ", 1", "\"abc", "\"\\q\"", "\"\\u12\"", "\"\\ud800\"", "@", "$", "1 === 2", "1 <> 2", "1 =< 2", "{a b}", "[1,,2]", "f(;)", "f(1;)",
           ".a[1:2:3]", "..a", "1 as [$x | 2", "1 as {$x | 2", "reduce", "else", "end", "then 1", "}", ")", "]", "\\", "1 # c \\\n 2 \n 3", "&", "^", "1 ! 2", "import", "include 1;", "$__prog_args__x y"]
+# arities the grammar documents: reduce takes 2 arguments, foreach 2 or 3; any other number - wherever the fold stands, whatever its pattern -
+# is rejected at compile time and never silently reinterpreted; likewise calls of defined names with a number of arguments nobody defined,
+# undefined variables and labels (all found without running anything: the prefix `empty |` must not hide them)
+for _pre in ["", "empty | ", "[", "1 as $y | ", "def f: ", "if . then 1 else "]:
+    _post = {"[": "]", "def f: ": "; 1", "if . then 1 else ": " end"}.get(_pre, "")
+    for _pat in ["$x", "[$x]", "{a: $x}"]:
+        for _args in ["()", "(0)", "(0; . + 1; . * 10)", "(0; . + 1; nosuchfilter)", "(0; 1; 2; 3)"]:
+            REJECT.append("%sreduce (1, 2) as %s %s%s" % (_pre, _pat, _args, _post))
+        for _args in ["()", "(0)", "(0; 1; 2; 3)", "(0; 1; 2; 3; 4)"]:
+            REJECT.append("%sforeach (1, 2) as %s %s%s" % (_pre, _pat, _args, _post))
+REJECT += ["limit(1)", "first(1; 2)", "empty(1)", "range(1; 2; 3; 4)", "empty | nosuchfilter", "empty | $nosuchvar", "empty | break $nosuchlabel", "def f(g): g; f", "def f(g): g; f(1; 2)",
+           "def f($a): $a; f", "recurse(1; 2; 3)", "empty | [limit(1)]", "label $a | (empty | break $b)", "1 as $x | (empty | $y)", "reduce 1 as $x (0; $y)", "{a: nosuchfilter}", "{(nosuchfilter): 1}",
+           "\"\\(nosuchfilter)\"", "try nosuchfilter", "[.[] | nosuchfilter(.)]", "if . then 1 elif 2 end", "if . then 1 elif . else 2 end", "try 1 catch", "def f(a b): 1; 1", "def f(;): 1; 1", "def f(a;): 1; 1"]
 
 
 def custom(ctx):
